@@ -892,7 +892,36 @@ func (e *Engine) dispatch(s *State, f *Frame, fn *ssa.Function, args []Value, bi
 	case "(*sync.RWMutex).RUnlock":
 		e.lockOp(s, args[0].(*Ptr), "RUnlock", site)
 	case "(*sync.RWMutex).TryLock", "(*sync.Mutex).TryLock", "(*sync.RWMutex).TryRLock":
-		panic(engineUnsupported(name))
+		// alone, a try-lock on a free mutex succeeds; with other goroutines around (C19 layer 3: the per-operation
+		// exploration) it may also fail - the schedule query then demands a conflicting critical section of
+		// another thread around that moment
+		mp := args[0].(*Ptr)
+		if mp.Obj == 0 {
+			s.panicd = "nil mutex at " + site
+			return nil
+		}
+		acq := "Lock"
+		if strings.HasSuffix(name, "TryRLock") {
+			acq = "RLock"
+		}
+		var forks []*State
+		if e.havocLookup != nil {
+			o := s.clone()
+			o.trace = append(o.trace, TraceEv{Kind: "tryfail", Obj: mp.Obj, Key: mutexKey(mp), Res: acq == "Lock", Site: site})
+			setRes(o, x, False)
+			forks = append(forks, o)
+		}
+		held := 0
+		if s.locks != nil {
+			held = s.locks[mutexKey(mp)]
+		}
+		if held == -1 || (held > 0 && acq == "Lock") {
+			set(False) // this goroutine holds it already: the attempt fails
+			return forks
+		}
+		e.lockOp(s, mp, acq, site)
+		set(True)
+		return forks
 	case "sync/atomic.LoadUint32", "sync/atomic.LoadInt32", "sync/atomic.LoadUint64", "sync/atomic.LoadInt64":
 		set(e.load(s, args[0].(*Ptr), site))
 	case "sync/atomic.StoreUint32", "sync/atomic.StoreInt32", "sync/atomic.StoreUint64", "sync/atomic.StoreInt64":
